@@ -181,12 +181,16 @@ class Case:
                         s = al[si - 1]["asset"] if 1 <= si <= len(al) else 0
                         if a is not None and s:
                             self.g_hold.add((a, s))
+                        else:                # ill-formed (never WellFormed): Resolve's error is ignored, the zero pair is shared
+                            self.g_hold.add(("z", 0))
                     elif e["locals"]:
                         a = addr_at(e["locals"][0])
                         pi = e["locals"][1]
                         p = t["id"] if pi == 0 else (al[pi - 1]["app"] if 1 <= pi <= len(al) else 0)
                         if a is not None and (p or pi == 0):
                             self.g_local.add((a, p))
+                        else:                # ill-formed: as above
+                            self.g_local.add(("z", 0))
                     elif e["box"]:
                         i, n = e["box"]
                         if i == 0:
